@@ -1,4 +1,5 @@
 """C08 - set operations obey multiset algebra; hash variants agree."""
+from collections import Counter
 from fractions import Fraction
 
 import petl as etl
@@ -57,6 +58,7 @@ def case(draw, tier):
     # presorted=True on inputs the harness has sorted (whole rows, reference ordering); with different container forms on
     # the two sides a list row meets a tuple row in the merge
     c["presorted"] = op in ("complement", "intersection", "diff", "law") and draw(st.integers(0, 3)) == 0
+    c["buffersize"] = draw(st.sampled_from([None, None, 1, 2, 3]))
     c["forms"] = [draw(st.sampled_from(["lists", "lists", "lists"] + catgen.FORMS)) for _ in range(2)]
     return c
 
@@ -83,7 +85,7 @@ def check(case, ctx):
     op, a, b, strict = case["op"], case["a"], case["b"], case["strict"]
     forms = case.get("forms") or ["lists", "lists"]
     pre = bool(case.get("presorted")) and (case.get("upstream") or ["none", "none"]) == ["none", "none"]
-    pk = {"presorted": True} if pre else {}
+    pk = {"presorted": True} if pre else ({"buffersize": case["buffersize"], "tempdir": ctx.tmpdir()} if case.get("buffersize") else {})
     if pre:
         ctx.label("presorted")
         A = catgen.shape([list(r) for r in R.ref_sort(a)], forms[0])
@@ -105,15 +107,23 @@ def check(case, ctx):
     ctx.label("op:" + op, "strict" if strict else "lenient", "a-empty" if len(a) == 1 else "a-rows", "b-empty" if len(b) == 1 else "b-rows")
     ctx.nontrivial(any(r in cb and cb[r] != ca[r] for r in ca))
 
-    def cmp(name, got, exp, seq=True):
+    def cmp(name, got, exp, seq=True, origin=None):
+        origin = a if origin is None else origin
         hdr, rows = exp
         if not got or got[0] != tuple(hdr):
             return Fail(name + "/header", "got %r expected %r" % (got[:1], hdr))
         if RS.multiset(got[1:]) != RS.multiset(rows):
             return Fail(name + "/multiset", "%s(%r, %r, strict=%r) gave %r, reference %r" % (name, a, b, strict, got[1:], rows))
+        # == is not enough where (1, 'x') and (1.0, 'x') are the same row: what comes out are rows of the FIRST table
+        # (of b for diff's `added`), cell for cell
+        src = Counter(codec.dumps(tuple(r)) for r in origin[1:])
+        out = Counter(codec.dumps(tuple(r)) for r in got[1:])
+        if out - src:
+            return Fail(name + "/row-origin", "%s(%r, %r, strict=%r) gave %r: not (type-exact) rows of %r" % (name, a, b, strict, got[1:], origin[1:]))
         if seq and got[1:] != rows:
             return Fail(name + "/order", "%s(%r, %r, strict=%r) gave %r, reference order %r" % (name, a, b, strict, got[1:], rows))
         return None
+    bk = {k: v for k, v in pk.items() if k != "presorted"}   # the record* forms have no presorted argument
     _MODE["lag"] = case.get("lag")
     if _MODE["lag"] is not None:
         ctx.label("two-iterators")
@@ -127,15 +137,15 @@ def check(case, ctx):
         if op == "hashintersection":
             return cmp(op, _run(etl.hashintersection, A, B), RS.ref_intersection(a, b, ordered=False))
         if op == "recordcomplement":
-            return cmp(op, _run(etl.recordcomplement, A, B, strict=strict), RS.ref_complement(a, ba, strict), seq=False)
+            return cmp(op, _run(etl.recordcomplement, A, B, strict=strict, **bk), RS.ref_complement(a, ba, strict), seq=False)
         if op == "diff":
             added, subtracted = etl.diff(A, B, strict=strict, **pk)
-            return (cmp("diff.added", [tuple(r) for r in added], RS.ref_complement(b, a, strict), seq=False)
+            return (cmp("diff.added", [tuple(r) for r in added], RS.ref_complement(b, a, strict), seq=False, origin=b)
                     or cmp("diff.subtracted", [tuple(r) for r in subtracted], RS.ref_complement(a, b, strict), seq=False))
         if op == "recorddiff":
-            added, subtracted = etl.recorddiff(A, B, strict=strict)
+            added, subtracted = etl.recorddiff(A, B, strict=strict, **bk)
             ab = RS.align(a, b[0])
-            return (cmp("recorddiff.added", [tuple(r) for r in added], RS.ref_complement(b, ab, strict), seq=False)
+            return (cmp("recorddiff.added", [tuple(r) for r in added], RS.ref_complement(b, ab, strict), seq=False, origin=b)
                     or cmp("recorddiff.subtracted", [tuple(r) for r in subtracted], RS.ref_complement(a, ba, strict), seq=False))
         # law: complement + intersection reassemble a (non-strict), for both implementations
         for cf, inf in ((etl.complement, etl.intersection), (etl.hashcomplement, etl.hashintersection)):
